@@ -17,8 +17,9 @@
    * ORDER BY is a stable sort and `ANY LEFT JOIN` takes the first matching right row, both AFTER
      the rows went through `tie`, an arbitrary reordering supplied by the caller: ClickHouse
      promises no order among ties and no particular ANY row, so theorems quantify over `tie`;
-   * UInt8 width of bitShiftLeft (documentation example: bitShiftLeft(99, 2) = 140): the result
-     has the type of the shifted argument; a comparison is UInt8, so bit i >= 8 is lost.
+   * width of bitShiftLeft (documentation example: bitShiftLeft(99, 2) = 140): the result has the
+     type of the shifted argument. SqlBitSetAnd widens each condition with toUInt64 (fix in /repo:
+     a bare UInt8 condition lost bit i >= 8), so bit i >= 64 is lost.
    Executable definitions only. *)
 From Coq Require Import List ZArith NArith QArith String Ascii Bool.
 From Qryn Require Import lib.Strs model.Sql.
@@ -172,8 +173,8 @@ Fixpoint values_eqb (a b : list value) : bool :=
   | _, _ => false
   end.
 
-(* bitShiftLeft(<UInt8>, i): the result stays UInt8 *)
-Definition shl8 (b i : N) : N := N.modulo (N.shiftl b i) 256.
+(* bitShiftLeft(toUInt64(<condition>), i): the result stays UInt64 *)
+Definition shl64 (b i : N) : N := N.modulo (N.shiftl b i) 18446744073709551616.
 
 (* the one raw fragment of the log plans that is interpreted: the Map made from the JSON document
    time_series.labels (the model stores the document as its key/value list) *)
@@ -405,10 +406,11 @@ Section EVAL.
       | _ => None
       end
     | BitSetAnd cl =>
-      (* groupBitOr(bitShiftLeft(c0, 0) + bitShiftLeft(c1, 1) + ...) over the rows of the group *)
+      (* groupBitOr(bitShiftLeft(toUInt64(c0), 0) + bitShiftLeft(toUInt64(c1), 1) + ...) over the rows of the group;
+         the sum of UInt64 terms with disjoint bits does not wrap *)
       match map_opt (fun r =>
               match map_opt (fun c => truthy (ev c [r])) cl with
-              | Some bs => Some (fst (fold_left (fun acc b => (fst acc + shl8 (if b : bool then 1 else 0) (snd acc), snd acc + 1)%N)
+              | Some bs => Some (fst (fold_left (fun acc b => (fst acc + shl64 (if b : bool then 1 else 0) (snd acc), snd acc + 1)%N)
                                                 bs (0%N, 0%N)))
               | None => None end) g with
       | Some masks => Some (VInt (Z.of_N (fold_left N.lor masks 0%N)))
